@@ -528,9 +528,7 @@ func sliceNud(p *parser, t *token) *token {
 	if p.Token.Symbol == "(" { // convert
 		return t
 	}
-	data := symAtPos(p.Token.Pos, ";")
-	t.Append(data)
-	data.Tokens = getData(p).Tokens
+	t.Append(getData(p)) // (with its symbol: ":" marks index: value pairs)
 	return t
 }
 func mapNud(p *parser, t *token) *token {
@@ -552,12 +550,18 @@ func dataNud(p *parser, t *token) *token {
 func getData(p *parser) *token {
 	t := symAtPos(p.Token.Pos, ";")
 	p.Advance("{")
+	plain := 0
 	for p.Token.Symbol != "}" {
 		t.Append(p.Expression(commaBP))
 		if p.Token.Symbol == ":" {
 			t.Symbol, t.Text = ":", ":"
 			p.Advance(":")
 			t.Append(p.Expression(commaBP))
+		} else {
+			plain++
+		}
+		if t.Symbol == ":" && plain > 0 {
+			panic("keyed and positional elements in one literal are not supported")
 		}
 		if p.Token.Symbol != "," {
 			break
